@@ -25,17 +25,17 @@
 From Coq Require Import List NArith Bool Arith.
 Import ListNotations.
 
-Definition id := nat.
+Definition id := N.
 Record node := mkNode { nty : N; nval : N; nkids : list (N * id) }.   (* kids: (slot id, child) in field order *)
 Inductive owner := Unalloc | Live (t : nat) | Pooled | Garbage.
 Record state := mkState { cont : id -> node; own : id -> owner; nxt : id; pool : list id }.
 
-Definition upd {A} (f : id -> A) (i : id) (a : A) : id -> A := fun j => if Nat.eqb j i then a else f j.
-Definition memb (i : id) (l : list id) : bool := existsb (Nat.eqb i) l.
+Definition upd {A} (f : id -> A) (i : id) (a : A) : id -> A := fun j => if N.eqb j i then a else f j.
+Definition memb (i : id) (l : list id) : bool := existsb (N.eqb i) l.
 Fixpoint remove1 (i : id) (l : list id) : list id :=
   match l with
   | [] => []
-  | x :: r => if Nat.eqb i x then r else x :: remove1 i r
+  | x :: r => if N.eqb i x then r else x :: remove1 i r
   end.
 Definition owner_is (t : nat) (o : owner) : bool := match o with Live t' => Nat.eqb t' t | _ => false end.
 Definition retire (t : nat) (o : id -> owner) : id -> owner :=
@@ -58,7 +58,7 @@ Definition actor (o : op) : option nat :=
   | _ => None
   end.
 
-Definition init : state := mkState (fun _ => mkNode 0 0 []) (fun _ => Unalloc) 0 [].
+Definition init : state := mkState (fun _ => mkNode 0 0 []) (fun _ => Unalloc) 0%N [].
 
 Section Own.
   Variable pooled_ty : N -> bool.            (* the release path Puts objects of this type *)
@@ -106,7 +106,7 @@ Section Own.
   Definition step (s : state) (o : op) : state :=
     match o with
     | Alloc t ty =>
-        mkState (upd (cont s) (nxt s) (mkNode ty 0 [])) (upd (own s) (nxt s) (Live t)) (S (nxt s)) (pool s)
+        mkState (upd (cont s) (nxt s) (mkNode ty 0 [])) (upd (own s) (nxt s) (Live t)) (N.succ (nxt s)) (pool s)
     | Get t i =>
         if memb i (pool s) then mkState (cont s) (upd (own s) i (Live t)) (nxt s) (remove1 i (pool s)) else s
     | Write t i n => mkState (upd (cont s) i n) (own s) (nxt s) (pool s)
@@ -182,11 +182,11 @@ Fixpoint nodupb (l : list id) : bool :=
 (* ------------------------------------------------------------------------------------------------
    Slices and byte buffers handed to callers: a result is a set of memory cells; later library
    activity is a sequence of writes.  (Generic part of the aliasing clause.) *)
-Definition mem := nat -> N.
-Definition wr (m : mem) (w : nat * N) : mem := fun a => if Nat.eqb a (fst w) then snd w else m a.
-Definition wr_all (m : mem) (ws : list (nat * N)) : mem := fold_left wr ws m.
-Definition read (m : mem) (cells : list nat) : list N := map m cells.
-Definition disjointb (cells : list nat) (ws : list (nat * N)) : bool :=
+Definition mem := N -> N.
+Definition wr (m : mem) (w : N * N) : mem := fun a => if N.eqb a (fst w) then snd w else m a.
+Definition wr_all (m : mem) (ws : list (N * N)) : mem := fold_left wr ws m.
+Definition read (m : mem) (cells : list N) : list N := map m cells.
+Definition disjointb (cells : list N) (ws : list (N * N)) : bool :=
   forallb (fun w => negb (memb (fst w) cells)) ws.
 
 (* alias table rows: (result kind, library buffer kind, observed to alias) *)
